@@ -208,6 +208,36 @@ def run_twin(case, late):
     return obs
 
 
+def check_creation_during_initialisation(case):
+    """An asset created from inside another asset's initialize() during the first simulate() (the start-up action of an
+    ActionScheduler creates a sink) must be registered once and initialised once, like every other asset."""
+    s = System()
+    env = s.env
+    src = Source('S', PartGenerator('p', 1.0), case['kit']['src_c'], 5)
+    H = PartHandler('H', [src], 0.5)
+    made = {}
+
+    class Maker(ActionScheduler):
+        def default_action(self, obj, time, st):
+            if 'K' not in made:
+                made['K'] = Sink('Kmade', [H], 0)
+    first = Maker([(1, 'a'), (1, 'b')], 'maker')
+    first.register_object(Box())
+    last = PartHandler('after', None, 0)        # registered after the scheduler: initialised later in the same loop
+    s.simulate(case['hz'], print_summary=False)
+    K = made.get('K')
+    if K is None:
+        raise Violation('C20.crash', 'the start-up action of the scheduler did not run')
+    n = sum(1 for a in s._assets if a is K)
+    if n != 1:
+        raise Violation('C20.registered-once', f'asset created during initialisation appears {n} times in the asset list')
+    if K.env is not env or last.env is not env:
+        raise Violation('C20.initialised', 'an asset created from inside another asset\'s initialize() during the first '
+                        'simulate() was registered but never initialised')
+    if K.received_parts_count < 1:
+        raise Violation('C20.twin', 'the sink created during initialisation never received a part')
+
+
 ATTACH_KINDS = ['sink', 'buffer', 'batcher', 'gates', 'path', 'processor', 'handler']
 
 
@@ -283,6 +313,8 @@ def run_attach(case, late):
 
 
 def run(case):
+    with installed(Weights(*case['tb'])):
+        check_creation_during_initialisation(case)
     if case.get('attach'):
         with installed(Weights(*case['tb'])):
             A = run_attach(case, True)
